@@ -77,6 +77,10 @@ def implies_tests(a: ast.AST | str, b: ast.AST | str) -> bool:
     return True
 
 
+MUTATORS = {'append', 'extend', 'insert', 'pop', 'remove', 'clear', 'add', 'update', 'discard', 'sort', 'reverse',
+            'setdefault', 'popitem', 'rewind', 'advance'}
+
+
 def inline_locals(fn_node: ast.AST, expr: ast.AST, depth: int = 0) -> ast.AST:
     """Replace names that are assigned exactly once in the function (plain `x = <expr>`) by their definition.
 
@@ -105,6 +109,13 @@ def inline_locals(fn_node: ast.AST, expr: ast.AST, depth: int = 0) -> ast.AST:
             for x in (ast.walk(tgt) if tgt is not None else []):
                 if isinstance(x, ast.Name):
                     defs.setdefault(x.id, []).append(None)
+        elif isinstance(n, ast.Call) and isinstance(n.func, ast.Attribute) and isinstance(n.func.value, ast.Name) and \
+                n.func.attr in MUTATORS:
+            # the object is changed in place after its definition: the definition is not its value at the use
+            defs.setdefault(n.func.value.id, []).append(None)
+        elif isinstance(n, (ast.Subscript, ast.Attribute)) and isinstance(n.ctx, (ast.Store, ast.Del)) and \
+                isinstance(n.value, ast.Name):
+            defs.setdefault(n.value.id, []).append(None)
         todo.extend(ast.iter_child_nodes(n))
     single = {k: v[0] for k, v in defs.items() if len(v) == 1 and v[0] is not None and k not in params}
 
